@@ -6,8 +6,11 @@ def request():
     return json.loads(sys.stdin.read() or "{}")
 
 
+_SEEN_KNOWN = []      # witness classes of listed known findings that this run met (reported back so the check prints KNOWN-FINDING)
+
+
 def verdict(reproduced, detail, **kw):
-    print(json.dumps(dict(reproduced=bool(reproduced), detail=detail, **kw), default=str))
+    print(json.dumps(dict(reproduced=bool(reproduced), detail=detail, known_seen=list(_SEEN_KNOWN), **kw), default=str))
     sys.exit(0)
 
 
@@ -27,7 +30,10 @@ _REQ = None
 def is_known(witness_class):
     """True when the committed known-findings file lists this witness class (the driver then keeps searching)."""
     global _REQ
-    return witness_class in ((_REQ or {}).get("known") or [])
+    hit = witness_class in ((_REQ or {}).get("known") or [])
+    if hit and witness_class not in _SEEN_KNOWN:
+        _SEEN_KNOWN.append(witness_class)
+    return hit
 
 
 def request():  # noqa: F811  (keeps the request for is_known)
